@@ -350,8 +350,11 @@ impl FrameQueue {
             }
         }
 
-        // Add to pending feedback data
-        self.feedback_gen.put_ack_data(AckData { last_send_time_ms, total_ack_size, rate_limited });
+        // Add to pending feedback data, unless this group acknowledged nothing new (a duplicate of
+        // an earlier ack would otherwise produce an RTT sample measured from time zero)
+        if total_ack_size > 0 {
+            self.feedback_gen.put_ack_data(AckData { last_send_time_ms, total_ack_size, rate_limited });
+        }
     }
 
     pub fn can_advance_transfer_window(&mut self, new_base_id: u32) -> bool {
